@@ -243,6 +243,8 @@ pub enum Kind {
 pub struct Packer {
     pub fallback: bool,
     rev: [HashMap<u128, String>; 3],
+    /// the integer under which LANG_ONLY holds the bare `und` key (see `und_key`)
+    und: u128,
 }
 
 static PACKER: OnceLock<Packer> = OnceLock::new();
@@ -305,16 +307,31 @@ pub fn init_packer(img: &FsImage) -> &'static Packer {
             }
         }
         let mut rev = [HashMap::new(), HashMap::new(), HashMap::new()];
+        let mut und = own_pack("und");
         if fallback {
-            // the bare `und` key of LANG_ONLY is spelled out by the generator as LE bytes of "und"
-            rev[0].insert(own_pack("und"), "und".to_string());
             for (k, s) in &subs {
                 if let Some(v) = lib_pack(kinds[*k as usize], s) {
                     rev[*k as usize].insert(v, s.clone());
                 }
             }
+            // The bare `und` key of LANG_ONLY has no integer form in the library (`und` is the
+            // empty language there): the pinned generator spells it out as the little-endian
+            // bytes of "und"; under another packing (round 12, control `q6_r1`: six bits per
+            // character) a consistent generator spells it in *its* packing. It is the one key of
+            // the compiled LANG_ONLY that is not the library's integer form of a CLDR language —
+            // if there is exactly one such key; otherwise the pinned spelling stands and S1
+            // reports what does not fit.
+            let foreign: Vec<u128> = unic_langid_impl::likelysubtags::LANG_ONLY
+                .iter()
+                .map(|(k, _)| *k as u128)
+                .filter(|k| !rev[0].contains_key(k))
+                .collect();
+            if foreign.len() == 1 {
+                und = foreign[0];
+            }
+            rev[0].insert(und, "und".to_string());
         }
-        Packer { fallback, rev }
+        Packer { fallback, rev, und }
     })
 }
 
@@ -327,6 +344,11 @@ pub fn pack_kind(kind: Kind, s: &str) -> u128 {
         Some(_) => lib_pack(kind, s).unwrap_or_else(|| own_pack(s)),
         None => own_pack(s),
     }
+}
+
+/// the integer of the bare `und` key of LANG_ONLY
+pub fn und_key() -> u128 {
+    PACKER.get().map(|p| p.und).unwrap_or_else(|| own_pack("und"))
 }
 
 /// little-endian packing of an ASCII subtag, zero padded (how TinyStr lays a string out)
@@ -463,7 +485,7 @@ pub fn reference(img: &FsImage) -> Result<Reference, String> {
         ]);
         let (table, ints): (&str, Vec<u128>) = match (&key.lang, &key.script, &key.region) {
             // the bare `und` key: the generator spells this integer out as the little-endian bytes of "und"
-            (None, None, None) => ("LANG_ONLY", vec![own_pack("und")]),
+            (None, None, None) => ("LANG_ONLY", vec![und_key()]),
             (Some(l), None, None) => ("LANG_ONLY", vec![pack_kind(Kind::Lang, l)]),
             (Some(l), None, Some(r)) => ("LANG_REGION", vec![pack_kind(Kind::Lang, l), pack_kind(Kind::Region, r)]),
             (Some(l), Some(s), None) => ("LANG_SCRIPT", vec![pack_kind(Kind::Lang, l), pack_kind(Kind::Script, s)]),
@@ -958,7 +980,7 @@ pub fn static_checks(comp: &BTreeMap<String, Val>, rf: &Reference) -> StaticRepo
         let mut probes: Vec<Probe> = vec![];
         for (i, row) in c.iter().enumerate() {
             let k = row_key(row);
-            if t == "LANG_ONLY" && k.first() == Some(&own_pack("und")) {
+            if t == "LANG_ONLY" && k.first() == Some(&und_key()) {
                 continue; // by design not reachable: the bare und key
             }
             let Some(ask) = triple_of(t, &k) else { continue };
